@@ -19,6 +19,8 @@ import time
 REPO = '/repo'
 VERIF = os.path.dirname(os.path.dirname(os.path.abspath(__file__)))
 BASELINE = '2 failed, 1194 passed'
+ONLY = [w for w in os.environ.get('MUT_ONLY', '').split(',') if w]   # keep only mutants whose description contains one of these
+OPS = set(os.environ.get('MUT_OPS', '').split(','))   # extra operators: assign, ifconst
 CHECKS_FOR = {
     '_wcparse.py': ['C01', 'C02', 'C03', 'C10', 'C08', 'C07', 'C09', 'C17', 'C20', 'C18', 'C05', 'C11', 'C16', 'C19'],
     'glob.py': ['C05', 'C04', 'C12', 'C13', 'C06', 'C16', 'C03', 'C11', 'C18', 'C10', 'C09'],
@@ -84,6 +86,16 @@ def mutants_of(path):
             t = seg(node.test)
             if t and len(t) < 80:
                 replace_node(node.test, f'not ({t})', 'negate if-condition')
+                if 'ifconst' in OPS:
+                    replace_node(node.test, f'False and ({t})', 'if-condition -> False')
+                    replace_node(node.test, f'True or ({t})', 'if-condition -> True')
+        elif isinstance(node, (ast.Assign, ast.AugAssign)) and node.lineno == node.end_lineno and 'assign' in OPS:
+            txt = seg(node)
+            tgt = node.targets[0] if isinstance(node, ast.Assign) else node.target
+            if txt and isinstance(tgt, (ast.Attribute, ast.Name, ast.Subscript)):
+                ln = node.lineno - 1
+                indent = lines[ln][:len(lines[ln]) - len(lines[ln].lstrip())]
+                out.append((ln, indent + 'pass', f'drop assignment {txt[:50]}'))
         elif isinstance(node, (ast.Break, ast.Continue)):
             ln = node.lineno - 1
             indent = lines[ln][:len(lines[ln]) - len(lines[ln].lstrip())]
@@ -92,7 +104,7 @@ def mutants_of(path):
     seen = set()
     res = []
     for ln, new, what in out:
-        if new == lines[ln] or (ln, new) in seen:
+        if new == lines[ln] or (ln, new) in seen or (ONLY and not any(w in what for w in ONLY)):
             continue
         seen.add((ln, new))
         res.append((ln, new, what))
